@@ -221,9 +221,9 @@ class QuicConnectionProtocol(asyncio.DatagramProtocol):
 
                 self._closed.set()
             elif isinstance(event, events.HandshakeCompleted):
+                self._connected = True
                 if self._connected_waiter is not None:
                     waiter = self._connected_waiter
-                    self._connected = True
                     self._connected_waiter = None
                     waiter.set_result(None)
             elif isinstance(event, events.PingAcknowledged):
